@@ -296,6 +296,35 @@ func newServerWorld(x *X) *serverWorld {
 	return w
 }
 
+// routeDiscover registers an application handler for Discover Versions (a legal configuration: it replaces the
+// executor's built-in answer), scripted through pseudo versions in the request's list.
+func (w *serverWorld) routeDiscover() {
+	w.exec.Route(kmip.OperationDiscoverVersions, kmipserver.HandleFunc(func(ctx context.Context, p *payloads.DiscoverVersionsRequestPayload) (*payloads.DiscoverVersionsResponsePayload, error) {
+		for _, v := range p.ProtocolVersion {
+			if v.ProtocolVersionMajor == 9 {
+				switch v.ProtocolVersionMinor {
+				case 1:
+					return nil, kmipserver.Errorf(kmip.ResultReasonPermissionDenied, "routed discovery refuses")
+				case 2:
+					panic(errors.New("panic(error) in the routed discovery handler"))
+				case 3:
+					return nil, nil
+				}
+			}
+		}
+		return &payloads.DiscoverVersionsResponsePayload{ProtocolVersion: []kmip.ProtocolVersion{kmip.V1_4, kmip.V1_2}}, nil
+	}))
+}
+
+// routedDiscovery rewrites the built-in discovery items of a request into items for the routed handler.
+func routedDiscovery(rs *ReqSc) {
+	for i := range rs.Items {
+		if rs.Items[i].Op == "discover" {
+			rs.Items[i].Op = "discover-routed"
+		}
+	}
+}
+
 // responseIdentifier returns the identifier carried by the response payload of any of the routed operations.
 func responseIdentifier(pl kmip.OperationPayload) (string, bool) {
 	switch p := pl.(type) {
@@ -529,6 +558,21 @@ func buildRequest(rs *ReqSc, prefix string) *kmip.RequestMessage {
 		} else if it.Op == "unknown" {
 			// an operation code the library has never heard of, with an opaque payload
 			bi = kmip.RequestBatchItem{Operation: kmip.Operation(0x7E), RequestPayload: kmip.NewUnknownPayload(kmip.Operation(0x7E), ttlv.Value{Tag: 0x420094, Value: id + "|" + it.Tok})}
+		} else if it.Op == "discover-routed" {
+			// the application routes Discover Versions itself; the scripted outcome travels as a pseudo version in
+			// the request's list (9.1 typed error, 9.2 panic, 9.3 nothing at all), which the built-in answer would ignore
+			list := []kmip.ProtocolVersion{kmip.V1_4, kmip.V1_2}
+			for _, a := range strings.Split(it.Tok, ",") {
+				switch a {
+				case "et":
+					list = append(list, kmip.ProtocolVersion{ProtocolVersionMajor: 9, ProtocolVersionMinor: 1})
+				case "pe":
+					list = append(list, kmip.ProtocolVersion{ProtocolVersionMajor: 9, ProtocolVersionMinor: 2})
+				case "nn":
+					list = append(list, kmip.ProtocolVersion{ProtocolVersionMajor: 9, ProtocolVersionMinor: 3})
+				}
+			}
+			bi = kmip.RequestBatchItem{Operation: kmip.OperationDiscoverVersions, RequestPayload: &payloads.DiscoverVersionsRequestPayload{ProtocolVersion: list}}
 		} else if it.Op == "discover" {
 			// answered by the executor itself: no handler runs, the item succeeds
 			bi = kmip.RequestBatchItem{Operation: kmip.OperationDiscoverVersions, RequestPayload: &payloads.DiscoverVersionsRequestPayload{}}
@@ -564,6 +608,14 @@ func itemFails(it ItemSc) bool {
 	if it.Op == "discover" {
 		return false // answered by the executor itself; the scripted outcome never runs
 	}
+	if it.Op == "discover-routed" {
+		for _, a := range strings.Split(it.Tok, ",") {
+			if a == "et" || a == "pe" {
+				return true
+			}
+		}
+		return false
+	}
 	for _, a := range strings.Split(it.Tok, ",") {
 		switch a {
 		case "et", "ep", "pe", "ps", "pS", "pi", "pn", "pk", "pK", "pm":
@@ -575,7 +627,7 @@ func itemFails(it ItemSc) bool {
 
 // itemRunsHandler: does the handler run at all for this item (when it is reached)?
 func itemRunsHandler(it ItemSc) bool {
-	return it.Op != "unrouted" && it.Op != "unknown" && it.Op != "discover" && it.Ext != "critical"
+	return it.Op != "unrouted" && it.Op != "unknown" && it.Op != "discover" && it.Op != "discover-routed" && it.Ext != "critical"
 }
 
 type netConn = net.Conn
